@@ -33,7 +33,7 @@ type c06Case struct {
 // section 6, S1, property C15.  Reorganisations deeper than one block are
 // generated only when it can, so that C06 does not report C15's finding.)
 func probeDeepReorg() (bool, error) {
-	t, err := newTrace(0, true)
+	t, err := newTrace(c06Input{}, true)
 	if err != nil {
 		return false, err
 	}
@@ -50,7 +50,7 @@ func probeDeepReorg() (bool, error) {
 // run executes in.Ops; gen (optional) produces further operations online.
 func run(in c06Input, deep bool, g func(t *trace, i int) *op) (c06Case, error) {
 	cs := c06Case{Oracle: []string{}, Viol: []violation{}, Tags: []string{}}
-	t, err := newTrace(in.WSeed, deep)
+	t, err := newTrace(in, deep)
 	if err != nil {
 		return cs, err
 	}
@@ -60,9 +60,11 @@ func run(in c06Input, deep bool, g func(t *trace, i int) *op) (c06Case, error) {
 			return false, fmt.Errorf("op %d %s: %w", len(cs.In.Ops), o.K, err)
 		}
 		cs.In.Ops = append(cs.In.Ops, o)
+		// a history ends at its first violation (short replays)
 		return len(t.viols) > 0, nil
 	}
 	cs.In.WSeed = in.WSeed
+	cs.In.WatchOnlyWallet = in.WatchOnlyWallet
 	cs.In.Ops = []op{}
 	stop := false
 	for _, o := range in.Ops {
@@ -77,7 +79,7 @@ func run(in c06Input, deep bool, g func(t *trace, i int) *op) (c06Case, error) {
 		}
 		stop, err = step(*o)
 	}
-	cs.Obs = c06Obs{Reqs: t.reqs, Deep: deep, OpsRun: len(cs.In.Ops)}
+	cs.Obs = c06Obs{Reqs: t.reqs, Deep: deep, OpsRun: len(cs.In.Ops), Notes: t.notes}
 	if cs.Obs.Reqs == nil {
 		cs.Obs.Reqs = []reqObs{}
 	}
@@ -109,8 +111,12 @@ func main() {
 		os.Setenv("TMPDIR", "/dev/shm")
 	}
 	core.Main("c06", func(fs *flag.FlagSet) {
-		fs.BoolVar(&finalizeP2PKH, "psbt-p2pkh", false, "finalize and verify PSBT packets with P2PKH inputs too (observation O1)")
+		fs.BoolVar(&finalizeP2PKH, "psbt-p2pkh", false, "a P2PKH input of a finalized PSBT that does not verify is a violation (default: a note)")
+		fs.BoolVar(&probeMode, "probe", false, "determine the regenerated facts of Generated/SelectFacts.v behaviourally and print them")
 	}, func(c *core.Common, out *core.Emitter) error {
+		if probeMode {
+			return probe()
+		}
 		deep, err := probeDeepReorg()
 		if err != nil {
 			return err
